@@ -141,7 +141,7 @@ def construct(kind):
     if kind == "func":
         return "mk_user_func()"
     if kind == "builtin":
-        return "Value::BuiltinFunc{name: String::new(), f: trivial_builtin}"
+        return "Value::BuiltinFunc{name: String::from(\"b\"), f: trivial_builtin}"
     raise ValueError(kind)
 
 
